@@ -191,7 +191,7 @@ Fixpoint update (h : heap) (A : alloc) (v : hval) (p : path) (n : hval) : option
       (* updateArraySlice(v, m, path[1:], n, a) *)
       let upd_sl :=
         let len := Z.of_nat (hlen v) in
-        let '(st, en) := slice_bounds s e len in
+        let '(st, en) := slice_bounds_write s e len in
         let st := Z.to_nat st in let en := Z.to_nat en in
         if Nat.eqb st en && h_is_empty n then Some (h, A, norm_nil v)
         else
@@ -314,7 +314,7 @@ Definition h_index2 (h : heap) (v : hval) (c : pcomp) : option hval :=
   | PS s e => match v with
               | HNull => Some HNull
               | HArr _ _ len _ =>
-                  let '(st, en) := slice_bounds s e (Z.of_nat len) in
+                  let '(st, en) := slice_bounds_read s e (Z.of_nat len) in
                   Some (reslice false v (Z.to_nat st) (Z.to_nat en))
               | _ => None end
   | PBad => None
